@@ -107,7 +107,7 @@ def gen_perturbation(w, r, ir):
         kinds += ["block_attr", "block_attr", "block_kind_swap", "uuid_change"]
     if syms:
         kinds += ["sym_attr", "sym_attr", "sym_payload", "sym_payload"]
-    kinds += ["child_add", "child_remove", "edge_add", "edge_remove", "edge_label", "ir_version", "ir_aux_key", "edge_reorder", "edge_reorder", "aux_reorder"]
+    kinds += ["child_add", "child_remove", "edge_add", "edge_remove", "edge_label", "ir_version", "ir_aux_key", "edge_reorder", "edge_reorder", "aux_reorder", "edge_add_remove"]
     k = pick(kinds)
     if k == "mod_attr":
         l = pick(mods)
@@ -282,6 +282,17 @@ def gen_perturbation(w, r, ir):
         e = pick(par)
         ej = [e[0], e[1], list(e[2]) if e[2] else None]
         return (k, [{"op": "cfg", "ir": ir, "method": "discard", "args": [ej]}, {"op": "cfg", "ir": ir, "method": "add", "args": [ej]}], False, True)
+    if k == "edge_add_remove":
+        # NEUTRAL: an edge that is not in the set is added and discarded again (the graph may
+        # keep its endpoints as isolated vertices; the edge SET is unchanged). One replica only.
+        nodes = cbs + pxs
+        if not nodes:
+            return None
+        e = (pick(nodes), pick(nodes), tuple(gen_misc.gen_label(r) or ()) or None)
+        if e in m.nodes[ir].a["cfg"]:
+            return None
+        ej = [e[0], e[1], list(e[2]) if e[2] else None]
+        return (k, [{"op": "cfg", "ir": ir, "method": "add", "args": [ej]}, {"op": "cfg", "ir": ir, "method": "discard", "args": [ej]}], False, True)
     if k == "aux_reorder":
         # NEUTRAL: delete and re-create a table under the same key (dict order changes)
         cands = [(c, nme) for c in [ir] + mods for nme, t in m.nodes[c].a["aux"].items() if t["cv"] is not None and not R.has_unknown(R.parse_type(t["type"])) and t["state"] in ("fresh", "assigned")]
